@@ -217,3 +217,108 @@ func VerifNarrow(n int) {
 	}
 	verifExpect(out, "C10-after", "C10/type-after-conditional-not-restored/"+shape, afterRow, verifRenderKinds([]int{s.u1, s.u2}))
 }
+
+// verifTest: the six test forms of the property on a variable name.
+func verifTestText(v string, form int) string {
+	return []string{v + ".nil?", "!" + v + ".nil?", v + ".is_a?(Integer)", "!" + v + ".is_a?(Integer)", v + ".is_a?(String)", "!" + v + ".is_a?(String)"}[form]
+}
+
+// verifTestAdmits: does a value of kind k pass test form?
+func verifTestAdmits(form int, k int) bool {
+	switch form {
+	case 0:
+		return k == base.VkNil
+	case 1:
+		return k != base.VkNil
+	case 2:
+		return k == base.VkInt
+	case 3:
+		return k != base.VkInt
+	case 4:
+		return k == base.VkString
+	default:
+		return k != base.VkString
+	}
+}
+
+var verifTestName = []string{"nil?", "not-nil?", "is_a?(Integer)", "not-is_a?(Integer)", "is_a?(String)", "not-is_a?(String)"}
+
+// VerifNarrowChain: `&&` chains. mode 0: both tests on x = Sym.w (three distinct kinds);
+// mode 1: first test on x = Sym.w, second on y = Sym.u. Probes inside the branch and after
+// `end` (the pre-conditional type must be back), followed by a second conditional on x whose
+// branch type must again be computed from the original union.
+func VerifNarrowChain(n int) {
+	mode := verifapi.Concrete(verifapi.Int("mode", 0, 1))
+	hiForm := 3 // nil?, !nil?, is_a?(Integer), !is_a?(Integer)
+	verifKindHi = 2
+	if n >= 2 { // thorough: all six forms, kinds incl. Bool
+		hiForm = 5
+		verifKindHi = 3
+	}
+	f1 := verifapi.Concrete(verifapi.Int("f1", 0, hiForm))
+	f2 := verifapi.Concrete(verifapi.Int("f2", 0, hiForm))
+	var s *verifSym
+	src := ""
+	second := "x"
+	if mode == 0 {
+		s = verifInstallSym("w")
+		src = "x = Sym.w\ny = nil\n"
+	} else {
+		s = verifInstallSym("w", "u")
+		src = "x = Sym.w\ny = Sym.u\n"
+		second = "y"
+	}
+	src += "if " + verifTestText("x", f1) + " && " + verifTestText(second, f2) + "\n" // row 3
+	src += "dbtp x\ndbtp y\n"                                                       // rows 4,5
+	src += "end\n"                                                                   // row 6
+	src += "dbtp x\ndbtp y\n"                                                        // rows 7,8
+	src += "if !x.nil?\ndbtp x\nend\n"                                               // rows 9,10,11
+	verifapi.Witness("src", src)
+	verifapi.WitnessList("Sym.w", verifKN(s.w1), verifKN(s.w2), verifKN(s.w3))
+	if mode == 1 {
+		verifapi.WitnessList("Sym.u", verifKN(s.u1), verifKN(s.u2))
+	}
+	out := verifRun(src)
+	verifapi.Reach("ran")
+
+	xs := []int{s.w1, s.w2, s.w3}
+	var xIn []int
+	for _, k := range xs {
+		ok := verifTestAdmits(f1, k)
+		if mode == 0 {
+			ok = ok && verifTestAdmits(f2, k)
+		}
+		if ok {
+			xIn = append(xIn, k)
+		}
+	}
+	pol := []string{"positive", "negated"}
+	shape := "same-variable/" + pol[f1%2] + "-test-and-" + pol[f2%2] + "-test"
+	if mode == 1 {
+		shape = "two-variables/" + pol[f1%2] + "-test-and-" + pol[f2%2] + "-test"
+	}
+	verifapi.Witness("tests", verifTestName[f1]+" && "+verifTestName[f2])
+	if len(xIn) > 0 {
+		verifExpect(out, "C10-chain-then-x", "C10/and-chain/branch-type-of-first-variable-wrong/"+shape, 4, verifRenderKinds(xIn))
+	}
+	if mode == 1 {
+		var yIn []int
+		for _, k := range []int{s.u1, s.u2} {
+			if verifTestAdmits(f2, k) {
+				yIn = append(yIn, k)
+			}
+		}
+		if len(yIn) > 0 {
+			verifExpect(out, "C10-chain-then-y", "C10/and-chain/branch-type-of-second-variable-wrong/"+shape, 5, verifRenderKinds(yIn))
+		}
+		verifExpect(out, "C10-chain-after-y", "C10/and-chain/second-variable-not-restored/"+shape, 8, verifRenderKinds([]int{s.u1, s.u2}))
+	}
+	verifExpect(out, "C10-chain-after-x", "C10/and-chain/first-variable-not-restored/"+shape, 7, verifRenderKinds(xs))
+	var notNil []int
+	for _, k := range xs {
+		if k != base.VkNil {
+			notNil = append(notNil, k)
+		}
+	}
+	verifExpect(out, "C10-chain-later-conditional", "C10/and-chain/later-conditional-narrows-from-wrong-type/"+shape, 10, verifRenderKinds(notNil))
+}
